@@ -7,7 +7,8 @@ Line protocol of streams `C02`, `C08`, `C09` (tile sources and pipelines).
 `<stream> <op> <pipe> <env> <args>`
 
 * `env`  sources joined by `!`; one source = `fmt;comp;cover;tiles`, `cover` = non-empty level
-         boxes `z:a,b,c,d` joined by `/` (or `-`), `tiles` = `x,y,z,id` joined by `_` (or `-`).
+         boxes `z:a,b,c,d` joined by `/` (or `-`), `tiles` = `x,y,z,id` joined by `_` (or `-`); optional 5th field kind (harness only), optional 6th
+         field = coordinates `x,y,z` joined by `_` whose lookup is `Err` (fault injection).
          A leaf serves its tiles by lookup and the trait's default stream.
 * `pipe` reverse polish, tokens joined by `,`: `L<i>` leaf; `Z<min>:<max>` filter_zoom (`n` =
          absent, `x…` = not a `u8`); `B<w>:<s>:<e>:<n>` filter_bbox (f64 bit patterns; `x` = not
@@ -45,14 +46,23 @@ def parseTiles (s : String) : Option (Std.HashMap Coord Nat) :=
       | some [x, y, z, i] => some (m.insert (x, y, z) i)
       | _ => none) {}
 
+def parseFails (s : String) : Option (List Coord) :=
+  if s == "-" || s == "" then some []
+  else (s.splitOn "_").mapM fun t =>
+    match parseNats (t.splitOn ",") with
+    | some [x, y, z] => some (x, y, z)
+    | _ => none
+
 def parseSrc (s : String) : Option (Op Pay) :=
-  -- an optional fifth field (the container kind) is read by the harness only
-  match (s.splitOn ";").take 4 with
+  -- field 5 (the container kind) is read by the harness only; field 6 = coordinates whose lookup
+  -- fails with `Err` (fault injection): the leaf then uses the trait's default stream over this lookup
+  let fs := s.splitOn ";"
+  match fs.take 4 with
   | [f, c, cov, tiles] =>
-    match f.toNat?, c.toNat?, parseCover cov, parseTiles tiles with
-    | some f, some c, some cov, some m =>
-      some ⟨Src.ofLookup (fun co => .ok ((m.get? co).map fun i => ([i], c))) cov, f, c⟩
-    | _, _, _, _ => none
+    match f.toNat?, c.toNat?, parseCover cov, parseTiles tiles, parseFails (fs.getD 5 "-") with
+    | some f, some c, some cov, some m, some fails =>
+      some ⟨Src.ofLookup (fun co => if fails.contains co then .err else .ok ((m.get? co).map fun i => ([i], c))) cov, f, c⟩
+    | _, _, _, _, _ => none
   | _ => none
 
 def parseEnv (s : String) : Option (Array (Op Pay)) :=
